@@ -171,6 +171,7 @@ static void classify_erase(const struct elem *e)
 }
 
 static void audit_tree(int t, unsigned props);
+static void check_fresh(void);
 
 static void w_apply(mc_op_t o)
 {
@@ -221,6 +222,7 @@ static void w_apply(mc_op_t o)
             MC_CHECK(PC15 | PC01, clr_bad == 0, "clear called back with a pointer that is no element");
             for (i = 0; i < N; i++) MC_CHECK(PC15 | PC01, clr_count[i] == m_member[i], "clear: element %d handed over %d times, expected %d", i, clr_count[i], m_member[i]);
             MC_CHECK(PC15 | PC01, t_size(0) == 0, "clear left size %zu", t_size(0));
+            check_fresh();
         }
         for (i = 0; i < N; i++) m_member[i] = 0;
         m_count = 0;
@@ -388,10 +390,19 @@ static void ck(const struct cstl_bintree_node *bn)
     ck(bn->l); ck(bn->r);
     KB_C(')');
 }
-static void w_canon(void)
+static void canon_one(int t)
 {
-    int t;
-    for (t = 0; t < 2; t++) { ck_nodes = 0; KB_C('T'); KB_U(t_bt(t)->size); KB_C(':'); ck(t_bt(t)->root); }
+    { ck_nodes = 0; KB_C('T'); KB_U(t_bt(t)->size); KB_C('o'); KB_U(t_bt(t)->off); if (RB) { KB_C('/'); KB_U(T[t].rb.off); } KB_C(':'); ck(t_bt(t)->root); }
+}
+static void w_canon(void) { canon_one(0); canon_one(1); }
+/* C15: after clear the tree object must be field-for-field like the never-used second tree object */
+static void check_fresh(void)
+{
+    char a[128], b[128]; size_t save = mc_kbn, n;
+    mc_kbn = 0; canon_one(0); n = mc_kbn < 127 ? mc_kbn : 127; memcpy(a, mc_kb, n); a[n] = 0;
+    mc_kbn = 0; canon_one(1); n = mc_kbn < 127 ? mc_kbn : 127; memcpy(b, mc_kb, n); b[n] = 0;
+    mc_kbn = save;
+    MC_CHECK(PC15, !strcmp(a, b), "after clear the tree is not like a freshly initialised one: fields %s, fresh %s", a, b);
 }
 
 static void w_opname(mc_op_t o, char *b, size_t n)
